@@ -66,6 +66,8 @@ type Clause struct {
 	Text  string
 	N     int    // ordinal within its kind (1-based)
 	Label string // optional name
+	Pkg   string // package scope (lemmas / axioms)
+	Assumed bool // trusted_ensures: assumed at call sites, NOT checked against the body (listed in the trusted base)
 }
 
 type GhostAssign struct {
@@ -94,6 +96,7 @@ type Contract struct {
 	Decreases  map[int]*CE
 	Unroll     map[int]int
 	NoPanic    bool
+	NoPanicProps []string
 	PanicsOnly *CE // panics only if P (nopanic under !P)
 	IntsBV     bool
 	Pure       bool // no heap effect, deterministic: callers may treat as function of args (+heap)
@@ -134,7 +137,7 @@ type SpecFile struct {
 }
 
 var clauseKW = map[string]bool{
-	"func": true, "extern": true, "requires": true, "ensures": true, "panic_ensures": true, "modifies": true,
+	"func": true, "extern": true, "requires": true, "ensures": true, "panic_ensures": true, "trusted_ensures": true, "modifies": true,
 	"invariant": true, "decreases": true, "unroll": true, "nopanic": true, "maypanic": true, "panics_only_if": true,
 	"ints": true, "pure": true, "serves": true, "ghost": true, "ghost_entry": true, "ghost_exit": true,
 	"axiom": true, "lemma": true, "const": true, "smt": true, "package": true, "inline": true, "opt": true,
@@ -273,7 +276,7 @@ func parseSpecFile(path string, goFile bool, defaultPkg string) (*SpecFile, erro
 				Invariants: map[int][]*Clause{}, Decreases: map[int]*CE{}, Unroll: map[int]int{}, Opts: map[string]string{}}
 			sf.Contracts = append(sf.Contracts, cur)
 			counts = map[string]int{}
-		case "requires", "ensures", "panic_ensures", "invariant":
+		case "requires", "ensures", "panic_ensures", "invariant", "trusted_ensures":
 			if cur == nil {
 				return nil, fail(cl, fmt.Errorf("clause outside function"))
 			}
@@ -291,6 +294,12 @@ func parseSpecFile(path string, goFile bool, defaultPkg string) (*SpecFile, erro
 			}
 			counts[ck]++
 			c := &Clause{Kind: kw, Expr: e, Props: props, Text: rest, N: counts[ck], Label: label}
+			if kw == "trusted_ensures" {
+				c.Assumed = true
+				c.Kind = "ensures"
+				sf.Trusted = append(sf.Trusted, "  "+cur.Header+" :: "+cl)
+				cur.Ensures = append(cur.Ensures, c)
+			}
 			switch kw {
 			case "requires":
 				cur.Requires = append(cur.Requires, c)
@@ -327,6 +336,7 @@ func parseSpecFile(path string, goFile bool, defaultPkg string) (*SpecFile, erro
 			cur.Unroll[ord] = n
 		case "nopanic":
 			cur.NoPanic = true
+			cur.NoPanicProps = props
 			if cur.Extern && !extern {
 				sf.Trusted = append(sf.Trusted, "  "+cur.Header+" :: nopanic")
 			}
@@ -402,7 +412,7 @@ func parseSpecFile(path string, goFile bool, defaultPkg string) (*SpecFile, erro
 			if err != nil {
 				return nil, fail(cl, err)
 			}
-			c := &Clause{Kind: kw, Expr: e, Props: props, Text: rest, Label: label}
+			c := &Clause{Kind: kw, Expr: e, Props: props, Text: rest, Label: label, Pkg: pkgName}
 			if kw == "axiom" {
 				sf.Axioms = append(sf.Axioms, c)
 				if !extern {
